@@ -6,7 +6,8 @@ import (
 	"github.com/open-policy-agent/opa/rego"
 )
 
-func processResult(result *rego.ResultSet, eventChan *chan e.Event, validationConfig c.ValidationConfiguration, reportConfig c.ReportConfiguration) (string, error) {
+func processResult(result *rego.ResultSet, eventChan *chan e.Event, validationConfig c.ValidationConfiguration, reportConfig c.ReportConfiguration) (encoded string, err error) {
+	defer recoverAsError(&err)
 	dispatchEvent(e.NewEvent(e.BuildReportStart), eventChan)
 	report, err := BuildReport(result, validationConfig, reportConfig)
 	dispatchEvent(e.NewEvent(e.BuildReportDone), eventChan)
